@@ -64,49 +64,14 @@ static int cmp_u64(const void *a, const void *b) {
 
 /* further shape parameters (scenario fields 6..8); zero when absent */
 static long g_sp[3];
-
-static uint64_t lo_of(long e, long d) {
-    uint64_t lo = e >= 0 ? (e >= 64 ? 0 : 1ULL << e) : 0;
-    return lo + (uint64_t)(int64_t)d;
-}
+#include "recipes.h"
 
 static void gen_shape(const char *shape, size_t n, long param, uint64_t *xs) {
     /* deterministic recipes whose statistics Selector.tla computes exactly */
-    if (!strcmp(shape, "lin") || !strcmp(shape, "linrev")) {
-        /* lo = 2^param + p2 (param < 0: lo = p2); step p3; last element += p4 */
-        uint64_t lo = lo_of(param, g_sp[0]);
-        for (size_t i = 0; i < n; i++) {
-            xs[i] = lo + (uint64_t)i * (uint64_t)g_sp[1];
-        }
-        xs[n - 1] += (uint64_t)g_sp[2];
-        if (!strcmp(shape, "linrev")) {
-            for (size_t i = 0; i < n / 2; i++) {
-                uint64_t t = xs[i];
-                xs[i] = xs[n - 1 - i];
-                xs[n - 1 - i] = t;
-            }
-        }
-    } else if (!strcmp(shape, "few")) { /* param distinct values, gap p2, lo p3 */
-        for (size_t i = 0; i < n; i++) {
-            xs[i] = (uint64_t)g_sp[1] + (uint64_t)(i % (size_t)param) * (uint64_t)g_sp[0];
-        }
-    } else if (!strcmp(shape, "out")) { /* param outliers at lo+p3, rest cycle in lo..lo+p2; lo p4 */
-        uint64_t lo = (uint64_t)g_sp[2];
-        for (size_t i = 0; i < n; i++) {
-            xs[i] = lo + (uint64_t)(i % (size_t)(g_sp[0] + 1));
-        }
-        for (size_t i = 1; i <= (size_t)param && i < n; i++) {
-            xs[i] = lo + (uint64_t)g_sp[1];
-        }
-    } else if (!strcmp(shape, "spread")) { /* unsorted, unique: lo p2 + i*param, first two swapped */
-        for (size_t i = 0; i < n; i++) {
-            xs[i] = (uint64_t)g_sp[0] + (uint64_t)i * (uint64_t)param;
-        }
-        if (n > 1) {
-            uint64_t t = xs[0];
-            xs[0] = xs[1];
-            xs[1] = t;
-        }
+    if (recipe_shape(shape, n, param, g_sp[0], g_sp[1], g_sp[2], xs)) {
+        return;
+    }
+    if (0) {
     } else if (!strcmp(shape, "zblk") || !strcmp(shape, "flatblk")) {
         /* 128-blocks selected by the bits of param (block b -> bit b%8) are all
          * zero (zblk) or repeat the previous value (flatblk): zero-width blocks */
